@@ -1,7 +1,7 @@
 (* C12 — Lexing and parsing are lossless over the input text.  Statements only; proofs by [exact]. *)
 From Coq Require Import NArith List.
 Import ListNotations.
-From AV Require Import model.Syntax model.Lexer model.Grammar proofs.LexerProofs proofs.GrammarLossless.
+From AV Require Import model.Syntax model.Lexer model.Grammar proofs.LexerProofs proofs.GrammarLossless proofs.GrammarTotal.
 
 (* The lexer terminates on every string (it is a total function whose fuel, the length of the input, never runs
    out: the tokens it returns already cover the whole input), every token is non-empty, and the tokens in order
@@ -19,6 +19,14 @@ Proof. exact parse_leaves. Qed.
 Theorem C12_source_leaves : forall (s : list chr) (f : list tree),
   parse_root (tokens s) = Some f -> concat (map snd (leavesf f)) = s.
 Proof. exact source_leaves. Qed.
+
+(* Parsing always finishes: the fuel of every loop of the parser suffices for every token list (each iteration consumes a token). *)
+Theorem C12_parse_total : forall toks : list token, parse_root toks <> None.
+Proof. exact parse_total. Qed.
+
+(* Hence, for EVERY source text: there is a parse, and the texts of its leaves, in order, spell the source. *)
+Theorem C12_source_always : forall s : list chr, exists f, parse_root (tokens s) = Some f /\ concat (map snd (leavesf f)) = s.
+Proof. exact source_always. Qed.
 
 (* non-vacuity: a concrete text with units, a parenthesis and a function call parses, and its leaves spell it *)
 Example C12_example :
